@@ -108,13 +108,27 @@ def forbidden_vernacular():
     return hits
 
 
-def coq_make(timeout=3000):
-    """full .vo build (never -vos/-vok); no-op when up to date"""
+# modules that depend on the data files regenerated from /repo (theories/Gen): when one of them no longer compiles, that is
+# a finding of the property that owns it and of no other property
+GEN_OWNED = {"theories/Gen/CtorFacts.vo": "C04", "theories/Life/CtorCheck.vo": "C04", "theories/Properties/C04.vo": "C04",
+             "theories/Gen/Swagger20.vo": "C02", "theories/Spec/Swagger20Facts.vo": "C02", "theories/Properties/C02.vo": "C02"}
+
+
+def coq_make(timeout=3000, pid=None):
+    """full .vo build (never -vos/-vok); no-op when up to date. make -k: a module that fails does not stop the others.
+    ok = everything built, or everything that failed belongs (GEN_OWNED) to another property than pid - the modules pid
+    needs are then compiled from fresh dependencies all the same (a stale .vo is refused by coqc as inconsistent)."""
     with Lock("coq"):
         if not os.path.exists(os.path.join(COQ, "Makefile")):
             run(["coq_makefile", "-f", "_CoqProject", "-o", "Makefile"], cwd=COQ, check=True)
-        p = run(["make", "-j16"], cwd=COQ, timeout=timeout)
-        return p.returncode == 0, (p.stdout + p.stderr)[-6000:]
+        p = run(["make", "-k", "-j16"], cwd=COQ, timeout=timeout)
+        log = (p.stdout + p.stderr)[-6000:]
+        if p.returncode == 0:
+            return True, log
+        failed = set(re.findall(r"\*\*\* \[[^\]]*?:\s*(theories/[\w/]+\.vo)\]", p.stdout + p.stderr))
+        if failed and all(f in GEN_OWNED and GEN_OWNED[f] != pid for f in failed):
+            return True, log
+        return False, log
 
 
 def check_property_file(pid, extra_files=(), timeout=1200):
@@ -160,7 +174,7 @@ def proof_obligations(pid, extra_files=()):
     """make + forbidden grep + property file. Returns (ok, info)"""
     info = {"property_file": "coq/theories/Properties/%s.v" % pid}
     hits = forbidden_vernacular()
-    ok_make, mlog = coq_make()
+    ok_make, mlog = coq_make(pid=pid)
     if not ok_make:
         info.update(obligations=1, discharged=0, failed=["make failed: " + mlog[-1500:]], axioms=[], theorems=[])
         return False, info
@@ -179,7 +193,7 @@ def build_driver(force=False):
         drv = os.path.join(OCAML, "driver")
         srcs = [os.path.join(OCAML, f) for f in ("driver.ml", "entries.ml", "build.sh")] + coq_sources()
         if force or not os.path.exists(drv) or any(os.path.getmtime(s) > os.path.getmtime(drv) for s in srcs):
-            ok, mlog = coq_make()
+            ok, mlog = coq_make(pid="driver")
             if not ok:
                 raise RuntimeError("coq make failed:\n" + mlog)
             run(["sh", os.path.join(OCAML, "build.sh")], check=True, timeout=1200)
